@@ -333,6 +333,14 @@ def _cursor_advance(body, cursor, temp, out, ev):
                     read_off = adv
                 else:
                     return None, None, "appended value `%s` is not read at the cursor" % src(a)
+        if isinstance(s, ast.Assign) and isinstance(s.targets[0], ast.Name) and s.targets[0].id == cursor and isinstance(s.value, ast.BinOp) \
+                and isinstance(s.value.op, ast.Add) and any(dotted(x) == cursor for x in (s.value.left, s.value.right)):
+            other = s.value.right if dotted(s.value.left) == cursor else s.value.left
+            try:
+                adv = adv + _ShapeEval(env).ev(other)
+            except AnalysisError as e:
+                return None, None, str(e)
+            continue
         if isinstance(s, ast.AugAssign) and isinstance(s.target, ast.Name) and s.target.id == cursor:
             if not isinstance(s.op, ast.Add):
                 return None, None, "cursor updated with %s" % type(s.op).__name__
